@@ -567,7 +567,7 @@ func ruleHeaderPublication(c *Ctx, rule string) {
 		return
 	}
 	lf := w.Locks()
-	nClose := 0
+	nClose, nPub, nSettle := 0, 0, 0
 	for _, fn := range []*ssa.Function{a.ClientAccept, a.ClientFinish} {
 		if fn == nil {
 			continue
@@ -588,6 +588,20 @@ func ruleHeaderPublication(c *Ctx, rule string) {
 			c.onceGuardedByFlag(rule, key+": once-guarded", cl, flag, locks[0])
 			if fn == a.ClientAccept {
 				sts := storesToField(fn, hf)
+				// a close on a path that neither follows nor precedes the header store is not the publication of a headers
+				// frame: it settles the headers as empty when data arrives first (the protocol lets a server omit the frame)
+				related := false
+				for _, st := range sts {
+					if reaches(st, cl) || reaches(cl, st) || dominates(st, cl) {
+						related = true
+					}
+				}
+				if len(sts) >= 1 && !related {
+					nSettle++
+					c.ok(rule, key+": settles absent headers", w.At(cl), "close on a path without a headers frame (once-guarded, under the mutex)")
+					continue
+				}
+				nPub++
 				c.check(len(sts) >= 1, rule, key+": headers stored", w.At(cl), fmt.Sprintf("%d store(s)", len(sts)), "the response_headers case never stores the headers")
 				for _, st := range sts {
 					c.check(dominates(st, cl) && !reaches(cl, st), rule, key+": headers stored before the signal", w.At(st), "store dominates close", "headers are stored after (or not on every path before) the signal: Header() returns nil/stale metadata")
@@ -603,6 +617,8 @@ func ruleHeaderPublication(c *Ctx, rule string) {
 		}
 	}
 	c.floor(rule, nClose, 2, "close sites of the headers signal (headers frame, finish)")
+	c.floor(rule, nPub, 1, "publication of a received headers frame")
+	_ = nSettle
 	if h := w.methodFn(a.CS, "Header"); h != nil {
 		lds := loadsOfField(h, hf)
 		for _, ld := range lds {
